@@ -1,10 +1,11 @@
 // C09 extractor, second stage (modules C09Up, C09Rot):
 //  * rotationMatrixWithUpDir with alignZAxisWithTargetDir as an OPAQUE call of Gen `Frame.alignZAxisWithTargetDir`
-//    (60 paths, extracted with its real body by sym_c09.cpp; inlined twice it gives 1201 paths);
-//  * rotationMatrix(from,to) with Quat::setRotation(from,to) as an OPAQUE call of Gen `Frame.quatSetRotation` (89 paths,
+//    (80 paths, extracted with its real body by sym_c09.cpp; inlined twice the tree explodes);
+//  * rotationMatrix(from,to) with Quat::setRotation(from,to) as an OPAQUE call of Gen `Frame.quatSetRotation` (115 paths,
 //    real body extracted by sym_c09.cpp).
 // The callees' Lean signatures come from Gen/index_c09.txt (passed as --idx, together with index_leaf.txt).
-// For translator validation the calls are evaluated with the real functions at double / float.
+// For translator validation the calls are evaluated with the real functions at double / float, and — Lean-side validation of the
+// emitted text, `rattv` — with the real templates instantiated at the exact-fraction type FracS (Native::q below).
 #include <math.h>
 #include "sym.h"
 #include "c10frac.h" // FracS: Vec::length at exact fractions so that lean_tv covers the entries calling it
@@ -29,7 +30,16 @@ template <class T> static std::vector<T> nativeQuatSetRotation (const std::vecto
     q.setRotation (IMATH_INTERNAL_NAMESPACE::Vec3<T> (a[4], a[5], a[6]), IMATH_INTERNAL_NAMESPACE::Vec3<T> (a[7], a[8], a[9]));
     return std::vector<T>{q.r, q.v.x, q.v.y, q.v.z};
 }
-static int native_qsr = (symns::natives ()["Frame.quatSetRotation"] = symns::Native{&nativeQuatSetRotation<double>, &nativeQuatSetRotation<float>}, 0);
+static std::vector<symns::Frac> fracQuatSetRotation (const std::vector<symns::Frac>& a)
+{
+    return symns::fracRun ([&] {
+        using symns::FracS;
+        IMATH_INTERNAL_NAMESPACE::Quat<FracS> q (a[0], a[1], a[2], a[3]);
+        q.setRotation (IMATH_INTERNAL_NAMESPACE::Vec3<FracS> (a[4], a[5], a[6]), IMATH_INTERNAL_NAMESPACE::Vec3<FracS> (a[7], a[8], a[9]));
+        return std::vector<FracS>{q.r, q.v.x, q.v.y, q.v.z};
+    });
+}
+static int native_qsr = (symns::natives ()["Frame.quatSetRotation"] = symns::Native{&nativeQuatSetRotation<double>, &nativeQuatSetRotation<float>, &fracQuatSetRotation}, 0);
 template <class T> static std::vector<T> nativeAlignZ (const std::vector<T>& a)
 {
     IMATH_INTERNAL_NAMESPACE::Matrix44<T> r;
@@ -38,7 +48,18 @@ template <class T> static std::vector<T> nativeAlignZ (const std::vector<T>& a)
     for (int i = 0; i < 4; ++i) for (int j = 0; j < 4; ++j) o.push_back (r.x[i][j]);
     return o;
 }
-static int native_alignZ = (symns::natives ()["Frame.alignZAxisWithTargetDir"] = symns::Native{&nativeAlignZ<double>, &nativeAlignZ<float>}, 0);
+static std::vector<symns::Frac> fracAlignZ (const std::vector<symns::Frac>& a)
+{
+    return symns::fracRun ([&] {
+        using symns::FracS;
+        IMATH_INTERNAL_NAMESPACE::Matrix44<FracS> r;
+        IMATH_INTERNAL_NAMESPACE::alignZAxisWithTargetDir (r, IMATH_INTERNAL_NAMESPACE::Vec3<FracS> (a[0], a[1], a[2]), IMATH_INTERNAL_NAMESPACE::Vec3<FracS> (a[3], a[4], a[5]));
+        std::vector<FracS> o;
+        for (int i = 0; i < 4; ++i) for (int j = 0; j < 4; ++j) o.push_back (r.x[i][j]);
+        return o;
+    });
+}
+static int native_alignZ = (symns::natives ()["Frame.alignZAxisWithTargetDir"] = symns::Native{&nativeAlignZ<double>, &nativeAlignZ<float>, &fracAlignZ}, 0);
 using namespace IMATH_INTERNAL_NAMESPACE;
 #define IN(Ty, n) auto n = c.template in<Ty<T>> (#n)
 EXTRACT_OPT ("C09Up", fr_rotationMatrixUp, "Frame.rotationMatrixWithUpDir", symns::Opts ().lattice (100),
